@@ -2,6 +2,25 @@ use crate::{hex, unhex};
 use umya_spreadsheet::helper::coordinate::*;
 use umya_spreadsheet::verif_api as va;
 
+fn store_problems(ws: &umya_spreadsheet::Worksheet) -> Vec<String> {
+    let mut problems: Vec<String> = vec![];
+    let listed: Vec<(u32, u32)> = ws.get_cell_collection_sorted().iter().map(|c| (*c.get_coordinate().get_row_num(), *c.get_coordinate().get_col_num())).collect();
+    if ws.get_cell_collection().len() != listed.len() { problems.push("unsorted and sorted listing differ in length".into()); }
+    for w in listed.windows(2) { if w[0] >= w[1] { problems.push("sorted listing not strictly ascending".into()); } }
+    for (r, c) in &listed {
+        match ws.get_cell((*c, *r)) {
+            Some(cell) => if (cell.get_coordinate().get_col_num(), cell.get_coordinate().get_row_num()) != (c, r) { problems.push(format!("cell found at ({},{}) reports another coordinate", c, r)); },
+            None => problems.push(format!("listed cell ({},{}) not found by lookup", c, r)),
+        }
+        if ws.get_row_dimension(r).is_none() { problems.push(format!("row {} of an existing cell is unknown to the writer", r)); }
+        if ws.get_collection_by_row(r).len() != listed.iter().filter(|t| t.0 == *r).count() { problems.push(format!("by-row listing of row {} disagrees", r)); }
+        if ws.get_collection_by_column(c).len() != listed.iter().filter(|t| t.1 == *c).count() { problems.push(format!("by-column listing of column {} disagrees", c)); }
+    }
+    let hi = ws.get_highest_column_and_row();
+    let exp_hi = (listed.iter().map(|t| t.1).max().unwrap_or(0), listed.iter().map(|t| t.0).max().unwrap_or(0));
+    if hi != exp_hi { problems.push(format!("highest column/row {:?} expected {:?}", hi, exp_hi)); }
+    problems
+}
 fn u(s: &str) -> u32 {
     s.parse::<u32>().unwrap()
 }
@@ -200,6 +219,17 @@ pub fn run(p: &[String]) -> Vec<String> {
             let (dr, dc) = (u(&p[7]) as i32 - 100, u(&p[8]) as i32 - 100);
             if b(&p[1]) { ws.move_range(&unhex(&p[6]), &dr, &dc); } else { ws.copy_range(&unhex(&p[6]), &dr, &dc); }
             vec![hex(&dump_cells(ws))]
+        }
+        "store_move" => {
+            // is_move ca ra cb rb range dr+100 dc+100 : coherence of the cell store after move_range / copy_range
+            let mut book = umya_spreadsheet::new_file();
+            let ws = book.get_sheet_by_name_mut("Sheet1").unwrap();
+            ws.get_cell_mut((u(&p[2]), u(&p[3]))).set_value_bool(true);
+            ws.get_cell_mut((u(&p[4]), u(&p[5]))).set_value_bool(false);
+            let (dr, dc) = (u(&p[7]) as i32 - 100, u(&p[8]) as i32 - 100);
+            if b(&p[1]) { ws.move_range(&unhex(&p[6]), &dr, &dc); } else { ws.copy_range(&unhex(&p[6]), &dr, &dc); }
+            let problems = store_problems(ws);
+            if problems.is_empty() { vec!["coherent".to_string()] } else { let mut v = vec!["incoherent".to_string()]; v.extend(problems.iter().map(|s| hex(s))); v }
         }
         "book_fanout" => {
             // op axis edited p n ca ra cb rb
@@ -443,6 +473,94 @@ pub fn run(p: &[String]) -> Vec<String> {
                 if got != target(i) { wrong.push(format!("A{}->{}", i, got)); }
             }
             vec![hex(&wrong.join(","))]
+        }
+        "lazy_comments" => {
+            // "i,j,.." : four sheets S1..S4 with one comment each are saved, read lazily; the listed sheets stay untouched (raw),
+            // the others are deserialised; comments per sheet before and after a second save + full reload
+            let raw: Vec<u32> = unhex(&p[1]).split(',').filter(|s| !s.is_empty()).map(|s| s.parse().unwrap()).collect();
+            let mut book = umya_spreadsheet::new_file_empty_worksheet();
+            for i in 1..=4u32 {
+                let ws = book.new_sheet(format!("S{}", i)).unwrap();
+                ws.get_cell_mut((1, 1)).set_value_string("x");
+                let mut c = umya_spreadsheet::Comment::default();
+                c.new_comment((i, i));
+                c.set_text_string(format!("note {}", i));
+                c.set_author(format!("author {}", i));
+                ws.add_comments(c);
+            }
+            let show = |book: &umya_spreadsheet::Spreadsheet| {
+                book.get_sheet_collection().iter().map(|ws| format!("{}:[{}]", ws.get_name(), ws.get_comments().iter().map(|c| format!("{}/{}/{}", c.get_coordinate().get_coordinate(), c.get_author(), c.get_text().get_text())).collect::<Vec<_>>().join(","))).collect::<Vec<_>>().join(" ")
+            };
+            let before = show(&book);
+            let mut buf: Vec<u8> = Vec::new();
+            umya_spreadsheet::writer::xlsx::write_writer(&book, &mut buf).unwrap();
+            let dir = std::env::temp_dir().join(format!("umya_lazy_{}", std::process::id()));
+            std::fs::create_dir_all(&dir).unwrap();
+            let path = dir.join("lazy.xlsx");
+            std::fs::write(&path, &buf).unwrap();
+            let mut lazy = umya_spreadsheet::reader::xlsx::lazy_read(&path).unwrap();
+            for i in 1..=4u32 {
+                if !raw.contains(&i) { let _ = lazy.get_sheet_by_name_mut(&format!("S{}", i)).unwrap().get_cell_mut((2, 2)).set_value_string("touched"); }
+            }
+            let mut buf2: Vec<u8> = Vec::new();
+            umya_spreadsheet::writer::xlsx::write_writer(&lazy, &mut buf2).unwrap();
+            let _ = std::fs::remove_dir_all(&dir);
+            let back = umya_spreadsheet::reader::xlsx::read_reader(std::io::Cursor::new(buf2), true).unwrap();
+            vec![hex(&before), hex(&show(&back))]
+        }
+        // ---- C12
+        "save_history" => {
+            // history a1 b1 new : per save "label | sorted distinct cell strings | sorted <t> texts of xl/sharedStrings.xml"
+            use std::io::Read;
+            let (hist, a1, b1, newt) = (unhex(&p[1]), unhex(&p[2]), unhex(&p[3]), unhex(&p[4]));
+            let mut out: Vec<String> = vec![];
+            let mut save = |label: &str, book: &umya_spreadsheet::Spreadsheet| {
+                let mut cells: Vec<String> = vec![];
+                for ws in book.get_sheet_collection() { for c in ws.get_cell_collection() { if c.get_data_type() == "s" { cells.push(c.get_value().to_string()); } } }
+                cells.sort(); cells.dedup();
+                let dump = |b: &umya_spreadsheet::Spreadsheet| { let mut v: Vec<String> = b.get_sheet_collection().iter().flat_map(|ws| ws.get_cell_collection().into_iter().map(|c| format!("{}={}", c.get_coordinate().get_coordinate(), c.get_value()))).collect(); v.sort(); v.join(",") };
+                let mut buf: Vec<u8> = Vec::new();
+                umya_spreadsheet::writer::xlsx::write_writer(book, &mut buf).unwrap();
+                let reloaded = umya_spreadsheet::reader::xlsx::read_reader(std::io::Cursor::new(buf.clone()), true).map(|b| dump(&b)).unwrap_or("<unreadable>".into());
+                let same_cells = if reloaded == dump(book) { "cells reload unchanged".to_string() } else { format!("cells reload as {} instead of {}", reloaded, dump(book)) };
+                let mut zin = zip::ZipArchive::new(std::io::Cursor::new(buf)).unwrap();
+                let mut texts: Vec<String> = vec![];
+                if let Ok(mut f) = zin.by_name("xl/sharedStrings.xml") {
+                    let mut xml = String::new(); f.read_to_string(&mut xml).unwrap();
+                    let mut rest = xml.as_str();
+                    while let Some(i) = rest.find("<t") {
+                        let after = &rest[i + 2..];
+                        if !(after.starts_with('>') || after.starts_with(' ') || after.starts_with('/')) { rest = after; continue; }
+                        let gt = after.find('>').unwrap();
+                        if after[..gt].ends_with('/') { texts.push(String::new()); rest = &after[gt + 1..]; continue; }
+                        let end = after.find("</t>").unwrap();
+                        texts.push(after[gt + 1..end].replace("&lt;", "<").replace("&gt;", ">").replace("&quot;", "\"").replace("&apos;", "'").replace("&amp;", "&"));
+                        rest = &after[end..];
+                    }
+                }
+                texts.sort();
+                out.push(hex(&format!("{} | {} | {} | {}", label, cells.join(","), texts.join(","), same_cells)));
+            };
+            let mut book = umya_spreadsheet::new_file();
+            {
+                let ws = book.get_sheet_by_name_mut("Sheet1").unwrap();
+                ws.get_cell_mut((1, 1)).set_value_string(a1.clone());
+                ws.get_cell_mut((2, 1)).set_value_string(b1.clone());
+            }
+            match hist.as_str() {
+                "save" => save("save", &book),
+                "save_save" => { save("first save", &book); save("second save", &book); }
+                "overwrite_save" => { book.get_sheet_by_name_mut("Sheet1").unwrap().get_cell_mut((1, 1)).set_value_string(newt.clone()); save("save after overwrite", &book); }
+                "save_overwrite_save" => { save("first save", &book); book.get_sheet_by_name_mut("Sheet1").unwrap().get_cell_mut((1, 1)).set_value_string(newt.clone()); save("save after overwrite", &book); }
+                "save_remove_save" => { save("first save", &book); book.get_sheet_by_name_mut("Sheet1").unwrap().remove_cell((1, 1)); save("save after removing A1", &book); }
+                "clone_edit_save_clone_then_original" => {
+                    let mut clone = book.clone();
+                    clone.get_sheet_by_name_mut("Sheet1").unwrap().get_cell_mut((1, 1)).set_value_string(newt.clone());
+                    save("save of the edited clone", &clone); save("save of the original", &book);
+                }
+                _ => { save("first save", &book); book.get_sheet_by_name_mut("Sheet1").unwrap().get_cell_mut((1, 1)).set_value_string(a1.clone()); save("save after re-setting the same text", &book); }
+            }
+            out
         }
         // ---- C04
         "attr_generations" => {
